@@ -6,6 +6,7 @@ import (
 	"fmt"
 	"math"
 	"regexp"
+	"regexp/syntax"
 	"sort"
 	"strconv"
 	"strings"
@@ -46,6 +47,17 @@ type Rules struct {
 	// every other token is a key, a key without value becomes a label with an EMPTY value that overwrites an
 	// existing label and counts for series identity; only an unterminated quote is an error.
 	LogfmtLenient bool
+	// --- deviant rules of the SQL engine (used on the RulesBefore side of a split evaluation) -----------------
+	LineFilterNotRegexIsRegex bool // `!~ "re"` with a non-literal regex keeps the MATCHING lines (negation lost, D12)
+	LabelFormatIgnored        bool // label_format is accepted but has no effect
+	// `json x="a.b"`: the value is looked up under the LAST path segment at the top level of the document
+	// (`'a','b' as jp` aliases only 'b'); an index segment [i] is the string key "i+1"
+	JSONParamLastSegmentOnly bool
+	// a label filter placed before the first parser stage is evaluated on the labels of the stored stream,
+	// whatever drop / label_format did before it
+	LabelFilterBeforeParserOnStreamLabels bool
+	// drop changes the label set but not the series identity
+	DropNoRekey bool
 }
 
 // Options of one evaluation.
@@ -54,6 +66,39 @@ type Options struct {
 	Limit      int   // log queries: 0 = no limit
 	Forward    bool  // log queries: oldest first; also the arrival order assumed by arrival-order deviant rules
 	Rules      Rules
+	// Split evaluation (C09 O2: one part of the pipeline runs in the SQL engine, the rest in process): stages
+	// [0, SplitAt) are evaluated under RulesBefore, the remaining stages, the aggregations and the limit under
+	// Rules.  AllBefore: everything under RulesBefore.  The definition has no notion of a split: with both rule
+	// sets equal these fields change nothing.
+	SplitAt     int
+	RulesBefore Rules
+	AllBefore   bool
+}
+
+// rulesAt: the rule set governing stage i.
+func (o *Options) rulesAt(i int) Rules {
+	if o.AllBefore || i < o.SplitAt {
+		return o.RulesBefore
+	}
+	return o.Rules
+}
+
+// tracksKeys: some deviant rule makes series identity differ from the label set.
+func (o *Options) tracksKeys() bool {
+	for _, r := range []Rules{o.Rules, o.RulesBefore} {
+		if r.SeriesKeyConcat || r.LabelFormatNoRekey || r.DropRekeyOnlyIfChanged || r.DropNoRekey {
+			return true
+		}
+	}
+	return false
+}
+
+// aggRules: the rule set governing aggregations, series identity and the limit.
+func (o *Options) aggRules() Rules {
+	if o.AllBefore {
+		return o.RulesBefore
+	}
+	return o.Rules
 }
 
 // OutEntry is one entry of a log-query result.
@@ -185,6 +230,7 @@ type state struct {
 	parseErr bool
 	key      string // series identity as tracked by the deviant rekey rules
 	aborted  bool
+	parsed   bool // a parser stage has run
 }
 
 func (e *LabelExpr) eval(labels map[string]string, r Rules) (bool, error) {
@@ -263,6 +309,14 @@ func seriesKey(labels map[string]string, r Rules) string {
 	return "calc:" + strings.Join(parts, "\x00")
 }
 
+// identityKey: the label set as series identity; under LogfmtLenient empty-valued labels count.
+func identityKey(l map[string]string, r Rules) string {
+	if r.LogfmtLenient {
+		return canonStrict(l)
+	}
+	return Canon(l)
+}
+
 // canonStrict is Canon that keeps empty-valued labels (only deviant rules distinguish them).
 func canonStrict(l map[string]string) string {
 	ks := make([]string, 0, len(l))
@@ -287,6 +341,15 @@ func (st *state) setExtracted(k, v string, r Rules) {
 	st.labels[k] = v
 }
 
+// isLiteralRegex: the pattern is a plain literal (possibly case-insensitive) - the case the SQL engine turns into LIKE.
+func isLiteralRegex(p string) bool {
+	exp, err := syntax.Parse(p, syntax.PerlX)
+	if err != nil {
+		return false
+	}
+	return exp.Op == syntax.OpLiteral && exp.Flags&^(syntax.PerlX|syntax.FoldCase) == 0
+}
+
 var sanitizeRe = regexp.MustCompile(`[^a-zA-Z0-9_]`)
 
 func sanitize(k string) string { return sanitizeRe.ReplaceAllString(k, "_") }
@@ -305,18 +368,25 @@ func (s *Stage) apply(st *state, r Rules) (keep bool, err error) {
 			if err != nil {
 				return false, err
 			}
+			if s.Op == "!~" && r.LineFilterNotRegexIsRegex && !isLiteralRegex(s.Value) {
+				return re.MatchString(st.line), nil
+			}
 			return re.MatchString(st.line) == (s.Op == "|~"), nil
 		}
 		return false, ErrUnsupported
 	case LabelFilter:
+		if r.LabelFilterBeforeParserOnStreamLabels && !st.parsed {
+			return s.Filter.eval(st.base, r)
+		}
 		return s.Filter.eval(st.labels, r)
 	case JSON:
+		st.parsed = true
 		var kv [][2]string
 		var ok bool
 		if len(s.Params) == 0 {
 			kv, ok = JSONFlatten(st.line)
 		} else {
-			kv, ok, err = JSONExtract(st.line, s.Params, r.JSONParamObjectIgnored)
+			kv, ok, err = JSONExtract(st.line, s.Params, r.JSONParamObjectIgnored, r.JSONParamLastSegmentOnly)
 			if err != nil {
 				return false, err
 			}
@@ -333,6 +403,7 @@ func (s *Stage) apply(st *state, r Rules) (keep bool, err error) {
 		st.key = seriesKey(st.labels, r)
 		return true, nil
 	case Logfmt:
+		st.parsed = true
 		kv, ok := LogfmtPairs(st.line)
 		if r.LogfmtLenient {
 			kv, ok = LogfmtPairsLenient(st.line)
@@ -360,6 +431,7 @@ func (s *Stage) apply(st *state, r Rules) (keep bool, err error) {
 		st.key = seriesKey(st.labels, r)
 		return true, nil
 	case Regexp:
+		st.parsed = true
 		re, err := regexp.Compile(s.Value)
 		if err != nil {
 			return false, err
@@ -375,6 +447,9 @@ func (s *Stage) apply(st *state, r Rules) (keep bool, err error) {
 		st.key = seriesKey(st.labels, r)
 		return true, nil
 	case LabelFormat:
+		if r.LabelFormatIgnored {
+			return true, nil
+		}
 		for _, f := range s.Formats {
 			if f.IsConst {
 				st.labels[f.Dst] = f.Const
@@ -413,7 +488,7 @@ func (s *Stage) apply(st *state, r Rules) (keep bool, err error) {
 				changed = true
 			}
 		}
-		if changed || !r.DropRekeyOnlyIfChanged {
+		if (changed || !r.DropRekeyOnlyIfChanged) && !r.DropNoRekey {
 			st.key = seriesKey(st.labels, r)
 		}
 		return true, nil
@@ -451,7 +526,7 @@ func (q *LogQuery) run(streams []Stream, opt Options) (out []*state, abortIdx in
 			key: "stored:" + Canon(base)}
 		keep := true
 		for i := range q.Stages {
-			keep, err = q.Stages[i].apply(st, opt.Rules)
+			keep, err = q.Stages[i].apply(st, opt.rulesAt(i))
 			if err != nil {
 				return nil, -1, err
 			}
@@ -481,8 +556,8 @@ func EvalLog(q *LogQuery, streams []Stream, opt Options) (LogResult, error) {
 	res := LogResult{AbortIndex: -1}
 	for _, st := range sts {
 		key := st.key
-		if r := opt.Rules; !r.SeriesKeyConcat && !r.LabelFormatNoRekey && !r.DropRekeyOnlyIfChanged {
-			key = Canon(st.labels)
+		if !opt.tracksKeys() {
+			key = identityKey(st.labels, opt.aggRules())
 		}
 		res.All = append(res.All, OutEntry{Labels: st.labels, TS: st.ts, Line: st.line, ParseErr: st.parseErr,
 			Stream: st.stream, Key: key})
@@ -491,7 +566,7 @@ func EvalLog(q *LogQuery, streams []Stream, opt Options) (LogResult, error) {
 	if opt.Limit > 0 && len(res.All) > opt.Limit {
 		res.Limited = res.All[:opt.Limit]
 	}
-	if opt.Limit == 0 && opt.Rules.LimitZeroIsEmpty {
+	if opt.Limit == 0 && opt.aggRules().LimitZeroIsEmpty {
 		res.Limited = nil
 	}
 	return res, nil
@@ -571,7 +646,7 @@ func evalRange(ra *RangeAgg, streams []Stream, opt Options) ([]Series, int, erro
 	if err != nil || aborted >= 0 {
 		return nil, aborted, err
 	}
-	r := opt.Rules
+	r := opt.aggRules()
 	acc := map[string]*seriesAcc{}
 	var order []string
 	for _, st := range sts {
@@ -581,8 +656,8 @@ func evalRange(ra *RangeAgg, streams []Stream, opt Options) ([]Series, int, erro
 			labels = applyGrouping(labels, ra.Grouping)
 			key = seriesKey(labels, r)
 		}
-		if !r.SeriesKeyConcat && !r.LabelFormatNoRekey && !r.DropRekeyOnlyIfChanged {
-			key = Canon(labels) // the definition: series identity is the label set
+		if !opt.tracksKeys() {
+			key = identityKey(labels, r) // the definition: series identity is the label set
 		}
 		sa := acc[key]
 		if sa == nil {
@@ -712,6 +787,7 @@ func evalVector(va *VectorAgg, streams []Stream, opt Options) ([]Series, int, er
 	default:
 		return nil, -1, ErrUnsupported
 	}
+	vr := opt.aggRules()
 	in, aborted, err := evalRange(&va.Inner, streams, opt)
 	if err != nil || aborted >= 0 {
 		return nil, aborted, err
@@ -734,13 +810,13 @@ func evalVector(va *VectorAgg, streams []Stream, opt Options) ([]Series, int, er
 		switch {
 		case va.Grouping != nil:
 			gl = applyGrouping(s.Labels, va.Grouping)
-			key = seriesKey(gl, opt.Rules)
-		case opt.Rules.VectorAggNoGroupPerSeries:
+			key = seriesKey(gl, vr)
+		case vr.VectorAggNoGroupPerSeries:
 			gl = s.Labels
 			key = fmt.Sprintf("series:%d", si)
 		default:
 			gl = map[string]string{}
-			key = seriesKey(gl, opt.Rules)
+			key = seriesKey(gl, vr)
 		}
 		g := groups[key]
 		if g == nil {
